@@ -632,7 +632,8 @@ class C04:
                     inc = self.score_of_text(t)
                     if inc is None:
                         raise InternalError("generator produced an unparsable increment")
-                    cur = shadow.get(m)
+                    zs_ = c.cmd("ZSCORE", key, m)          # the score the key index holds now (exact even after a NaN left two nodes for a member)
+                    cur = bits_of(float(zs_[1].decode())) if zs_[0] == "b" else None
                     summ = bits_of(float_of(cur) + float_of(inc)) if cur is not None else inc
                     nan = is_nan_bits(summ)
                     r = c.cmd("ZINCRBY", key, t, m)
@@ -865,6 +866,8 @@ def main(tier, seed):
     sw = source_switches()
     rep.extra["model_switches"] = {k: v for k, v in sw.items()}
     ok, log, errs = proof_phase(rep, families=[FAM])
+    rep.trusted_base.append("lib/c04.py source_switches(): three anchored patterns over StorageEngine::zrange, handle_zadd and handle_zincrby select the "
+                            "model variant (fixedRange/fixedZadd/fixedZincr); a wrong selection shows up as a correspondence break")
     build_harness(FAM)
     build_server()
     c = C04(rep, sw)
